@@ -5,6 +5,7 @@ import (
 	"encoding/json"
 	"fmt"
 	"os"
+	"os/exec"
 	"regexp"
 	"sort"
 	"strings"
@@ -421,7 +422,94 @@ func Run(c *engine.Ctx) {
 	cdxInputs(c)
 	spdxInputs(c)
 	realInputs(c)
+	parseHistory(c)
 	identifiers(c)
+}
+
+// parseHistory: what a parse returns must not depend on what was parsed before (identifier counters, caches, pooled
+// decoders): all ordered pairs (thorough: triples) of representative inputs; the last result is compared with the
+// result of the same input parsed first in a fresh process.
+func historyInputs() []string {
+	var ins []string
+	for _, cs := range [][]comp{
+		{{Ref: "", Parent: -1}, {Ref: "", Parent: 0}, {Ref: "", Parent: -1}},
+		{{Ref: "a", Parent: -1}, {Ref: "", Parent: 0}},
+		{{Ref: "a", Parent: -1}, {Ref: "a", Parent: -1}, {Ref: "b", Parent: 0}},
+		{{Ref: "", Parent: -1, Purl: "pkg:npm/left-pad@1.3.0"}},
+	} {
+		for meta := 0; meta < 3; meta += 2 {
+			root, _ := cdxDoc("1.5", meta, cs)
+			ins = append(ins, Render(root, false, false))
+		}
+	}
+	for _, rl := range [][]spdxRel{nil, {{"a", "CONTAINS", "b"}}, {{"DOCUMENT", "DESCRIBES", "a"}, {"b", "CONTAINS", "NONE"}}} {
+		root, _, _ := spdxDoc([]spdxEl{{"a", false}, {"b", true}}, rl, []string{"a"}, false)
+		ins = append(ins, Render(root, false, false))
+	}
+	ins = append(ins, `{"bomFormat":"CycloneDX","specVersion":"1.4","version":1}`, `{"bomFormat":"CycloneDX","specVersion":"1.5","components":[{"type":"library"`, `not json`)
+	return ins
+}
+
+func parseKey(in string) string {
+	d, err := rw.Read([]byte(in))
+	if err != nil {
+		return "error"
+	}
+	return docKey(d)
+}
+
+// Aux prints the parse result of history input #n as the first call of a fresh process.
+func Aux(args []string) int {
+	rw.SilenceStdout()
+	var n int
+	fmt.Sscan(args[0], &n)
+	fmt.Fprint(os.Stderr, parseKey(historyInputs()[n]))
+	return 0
+}
+
+func parseHistory(c *engine.Ctx) {
+	c.Group("parse-history")
+	ins := historyInputs()
+	depth := 2
+	if c.Thorough() {
+		depth = 3
+	}
+	c.Bound("parse-history", fmt.Sprintf("all sequences of %d parses over %d representative inputs (reference-less components, duplicate references, purl-described components, SPDX with special endpoints, truncated and empty documents); last result = result as first parse of a fresh process", depth, len(ins)))
+	refs := map[int]string{}
+	self, _ := os.Executable()
+	var rec func(seq []int)
+	rec = func(seq []int) {
+		if len(seq) == depth {
+			s := append([]int{}, seq...)
+			c.Case(func() any { return map[string]any{"input-indices": s} }, func(t *engine.T) *engine.Violation {
+				last := s[len(s)-1]
+				if _, ok := refs[last]; !ok {
+					out, err := exec.Command(self, "--aux", "c05ref", fmt.Sprint(last)).CombinedOutput()
+					if err != nil {
+						return engine.Violate("harness", "", "reference process failed: %v %s", err, out)
+					}
+					refs[last] = string(out)
+				}
+				var got string
+				for _, i := range s {
+					got = parseKey(ins[i])
+					t.Transitions(1)
+				}
+				t.Validated(1)
+				if got != refs[last] {
+					return engine.Violate("history-dependent", "", "after %d other parse(s) input #%d parses differently than as first parse of a fresh process: %s", len(s)-1, last, gen.SnapDiff(refs[last], got))
+				}
+				t.State(fmt.Sprint("phist", s))
+				t.Outcome("parse-history-ok")
+				return nil
+			})
+			return
+		}
+		for i := range ins {
+			rec(append(seq, i))
+		}
+	}
+	rec(nil)
 }
 
 // generated CycloneDX inputs -------------------------------------------------------
